@@ -419,8 +419,8 @@ def task_repr(p, cse, tier, seed):
 
 def programs_for(tier, seed):
     if tier == "quick":
-        return [CP.P1(), CP.P3(), CP.P10(), CP.P12(), CP.P14(), CP.P17(), CP.P20(), CP.P3().restrict(control=False), CP.P3().restrict(calibration=False)]
-    ps = CP.all_fixed() + CP.presence_variants(CP.P3())[1:] + CP.presence_variants(CP.P10())[1:]
+        return [CP.P1(), CP.P3(), CP.P10(), CP.P12(), CP.P14(), CP.P17(), CP.P20(), CP.P22(), CP.P3().restrict(control=False), CP.P3().restrict(calibration=False)]
+    ps = CP.all_fixed() + [CP.P22()] + CP.presence_variants(CP.P3())[1:] + CP.presence_variants(CP.P10())[1:]
     ps += [CP.random_program(seed, i) for i in range(8)]
     return ps
 
